@@ -74,6 +74,12 @@ theorem BaseInv.step {C : Crypto} {L : Loc} {a b : View} (h : BaseInv C L a) (s 
       · exact hk
       · exact h3 k' tr' hm
     · intro _; exact ⟨k, tr, rfl, by simp⟩
+  | sent k tr hk =>
+    refine ⟨?_, ?_, ?_, ?_⟩
+    · intro pub pk cr sr ems tr k hm; simp at hm; exact h1 _ _ _ _ _ _ _ hm
+    · intro k' hk'; obtain ⟨pk, cr, sr, ems, tr, hm⟩ := h2 k' hk'; exact ⟨pk, cr, sr, ems, tr, by simp [hm]⟩
+    · intro k' tr' hm; simp at hm; exact h3 k' tr' hm
+    · intro hc; obtain ⟨k', tr', hk', hm⟩ := h4 hc; exact ⟨k', tr', hk', by simp [hm]⟩
 
 theorem BaseInv.steps {C : Crypto} {L : Loc} {a b : View} (h : BaseInv C L a) (s : VSteps C L a b) : BaseInv C L b := by
   induction s with
@@ -168,6 +174,21 @@ theorem ClientInv.step {C : Crypto} {L : Loc} {f : Bytes} {a b : View} (h : Clie
       · obtain ⟨a1, l, s0, b0, a2, a3⟩ := h8 _ _ _ _ _ _ _ hm
         exact ⟨a1, l, s0, b0, by simp [a2], a3⟩
   | connect k tr hk =>
+    refine ⟨h1, h2, h3, ?_, ?_, ?_, ?_, ?_⟩
+    · intro l hm; simp at hm; exact h4 l hm
+    · intro l hl; simp [h5 l hl]
+    · intro l cr' sr' body' hm
+      simp at hm
+      obtain ⟨a1, a2, a3⟩ := h6 l cr' sr' body' hm
+      exact ⟨by simp [a1], a2, a3⟩
+    · intro hv
+      obtain ⟨l, sr1, body1, share1, a1, a2, a3⟩ := h7 hv
+      exact ⟨l, sr1, body1, share1, by simp [a1], a2, a3⟩
+    · intro pub pk' cr' sr' ems' tr' k' hm
+      simp at hm
+      obtain ⟨a1, l, s0, b0, a2, a3⟩ := h8 _ _ _ _ _ _ _ hm
+      exact ⟨a1, l, s0, b0, by simp [a2], a3⟩
+  | sent k tr hk =>
     refine ⟨h1, h2, h3, ?_, ?_, ?_, ?_, ?_⟩
     · intro l hm; simp at hm; exact h4 l hm
     · intro l hl; simp [h5 l hl]
@@ -397,6 +418,7 @@ theorem server_checks_certificate_if_presented (C : Crypto) (L : Loc) (f : Bytes
     | clientRandom cr hs' => exact ⟨hf, hc⟩
     | keys pk cr sr tr ems k a1 a2 a3 a4 a5 => exact ⟨hf, by intro l hm; simp at hm; exact hc l hm⟩
     | connect k tr hk => exact ⟨hf, by intro l hm; simp at hm; exact hc l hm⟩
+    | sent k tr hk => exact ⟨hf, by intro l hm; simp at hm; exact hc l hm⟩
 
 /-! ### non-vacuity: the client really can connect (so `client_auth` is not vacuous) -/
 
